@@ -6,6 +6,7 @@ import time
 from . import harness, explore, env
 
 ROOT = os.path.dirname(os.path.dirname(os.path.abspath(__file__)))
+OUT = os.environ.get("CIWMC_OUT", ROOT)   # evidence/ and replays/ go here (scratch dir when testing seeded changes)
 
 
 def _bounds(cfgs):
@@ -26,12 +27,12 @@ def _bounds(cfgs):
 
 
 def write_evidence(spec, tier, seed, coverage, assumptions, wall, nviol):
-    os.makedirs(os.path.join(ROOT, "evidence"), exist_ok=True)
+    os.makedirs(os.path.join(OUT, "evidence"), exist_ok=True)
     ev = {
         "property_id": spec.id, "tier": tier, "seed": seed, "level": "model_checking",
         "coverage": coverage, "assumptions": assumptions, "wall_s": round(wall, 2), "violations": nviol,
     }
-    path = os.path.join(ROOT, "evidence", "%s.json" % spec.id)
+    path = os.path.join(OUT, "evidence", "%s.json" % spec.id)
     tmp = path + ".tmp"
     with open(tmp, "w") as f:
         json.dump(ev, f, indent=1, sort_keys=True, default=harness._js)
@@ -66,7 +67,7 @@ def conclude(spec, cfgs, tot, tier, seed, t0):
         if v is None:
             print("HARNESS-ERROR: violation %s on %s did not reproduce" % (clause, cfg.get("name")))
             return 2
-        path = explore.write_replay(spec, cfg, best, v, os.path.join(ROOT, "replays", pid))
+        path = explore.write_replay(spec, cfg, best, v, os.path.join(OUT, "replays", pid))
         printed.append((clause, path, v))
     for fid, k in sorted(known.items()):
         print("KNOWN-FINDING: property=%s %s (%d executions)" % (pid, k["what"], k["n"]))
